@@ -145,8 +145,8 @@ CLAIMED["C24"] = dict(
 
 CLAIMED["C05"] = dict(
     level="translation_validation", design="§4 C05",
-    text="RISC-V only (rv32im, with and without rvc). Per program of a stated family (C corpus, 26 ABI/frame shapes, x op K with boundary constants, every narrow IR operator and cast on i8..u32, frame sizes around 2 KiB) and optimisation level (quick: 0 and 2; thorough: 0/1/2/s x {rv32im, rv32imc}) the real front end, optimizer, code generator and linker run concretely; the LINKED BYTES are executed symbolically on a manual-derived RV32IMC model (ref/rv32.py) from the function entry with symbolic argument registers, all other registers and memory, next to the reference semantics of the IR that was compiled. The solver proves, per path and for all inputs: equal return value, final globals and buffers, external call trace, restored sp/fp/callee-saved registers and an untouched caller stack; back-end exceptions count as 'no code produced'.",
-    note="RISC-V only: ARM, Thumb, m68k, mips, x86_64 are unclaimed (no ISA model available here). Trusted: z3, ref/rv32.py (validated under C08), ref/irsem.py + ref/irsem_u.py (allocas indeterminate until written), the engine; every path cross-checks the z3 machine semantics against an integer implementation. The calling convention is taken from ppci's own determine_arg_locations / determine_rv_location / callee_save. Loops and recursion unwound to 400 instructions (cut paths counted, not claimed). Outside: floats, 64-bit integers, struct-by-value arguments, externals that modify caller-visible memory; one known finding (locals beyond ~2 KiB: 'FPRELU32 not covered').",
+    text="RISC-V (rv32im, with and without rvc) and ARM A32. Per program of a stated family (C corpus, ABI/frame shapes, x op K with boundary constants around the immediate formats of both targets, every narrow IR operator and cast on i8..u32, frame sizes around 1/2/4 KiB) and optimisation level (quick: two levels for riscv, one for arm; thorough: 0/1/2/s, riscv also with rvc) the real front end, optimizer, code generator and linker run concretely; the LINKED BYTES are executed symbolically on manual-derived ISA models (ref/rv32.py; ref/arm32.py with flags, literal pools and ppci's runtime helper) from the function entry with symbolic registers, flags and memory, next to the reference semantics of the IR that was compiled. The solver proves, per path and for all inputs: equal return value, final globals and buffers, external call trace, restored sp/fp/callee-saved registers and an untouched caller stack; back-end exceptions count as 'no code produced'.",
+    note="RISC-V and ARM A32 only: Thumb, m68k, mips, x86_64 are unclaimed (no ISA model). Trusted: z3, ref/rv32.py and ref/arm32.py (validated under C08), ref/irsem.py + ref/irsem_u.py, the engine; every path cross-checks the z3 machine semantics against an integer implementation. Calling conventions are taken from ppci's own arch objects. Unwinding: 400 instructions (ARM: 40 inside the __sdiv loop); cut paths counted, not claimed. Known findings (region True per harness family): riscv locals beyond ~2 KiB not covered; ARM __udiv missing, REMU32 and narrow DIV/REM patterns missing, frame sizes that are not modified immediates, register allocator give-up, __sdiv helper unsigned, stack arguments never loaded. Outside: floats, 64-bit integers, struct-by-value arguments.",
     technique=TECH_TV)
 CLAIMED["C22"] = dict(
     level="translation_validation", design="§4 C22",
@@ -161,18 +161,18 @@ CLAIMED["C23"] = dict(
 
 CLAIMED["C27"] = dict(
     level="model_checking", design="§4 C27",
-    text="The whole real C front end (c_to_ir: preprocessor, parser, CSemantics typing/promotion/coercion, ConstantExpressionEvaluator, CContext.pack/sizeof/enum values, global/static initialiser generation, switch/case lowering) compiles program templates in which every integer literal of the constant expression carries a SYMBOLIC value over the whole range of its C type (made symbolic by wrapping CSemantics.on_number from the harness side; everything downstream is the real code on proxies). Uses: global/static initialisers of every integer type, array elements, struct members, case labels, enumerators, array sizes; operators + - * / % << >> & | ^ ~ - ! comparisons && || ?: and casts, depth 1 exhaustive, deeper trees sampled by VERIF_SEED. Per path z3 proves: the front end returns (no exception) and the observed bytes / case constant / array size equal ref/csem.py (C11 integer semantics for the target data model), under the premise that the expression is free of UB / constraint violations.",
-    note="Trusted: z3/cvc5, ref/csem.py, the engine (every path is repeated concretely with NO instrumentation: the model's literal values are printed into the C text and the unmodified c_to_ir is called). Genuine defects of the pinned tree in constant evaluation are listed as known findings grouped by root cause. Outside: floats, shift counts from huge literals, 64-bit symbolic products of sub-expressions, float division of symbolic integers (a change that introduces it ends in a harness error, not a verdict).",
+    text="For the stated template families the whole real C front end (c_to_ir) is executed with every integer literal of a constant expression SYMBOLIC over the full range of its type, including the value-dependent typing of unsuffixed literals (literals enter through a harness-side wrapper around CSemantics.on_number / utils.cnum; everything downstream is the real code on proxies). Templates: constant expressions of depth 1 exhaustively (18 binary operators, 4 unary operators, casts, ?:) and depth 2 sampled by VERIF_SEED, written with full and with minimal parentheses, used as initialisers of globals, statics, array elements, struct members and bit-fields of all 10 integer types (each also with a full-range literal of its own width), as case labels, enumerators and array sizes; targets x86_64 (quick) + arm, msp430, or1k big endian (thorough). On every path z3 proves that the front end returns and that the emitted bytes / case constant / array size equal the C11 value converted to the destination type (ref/csem.py), whenever the expression is free of undefined behaviour.",
+    note="Trusted: z3/cvc5, ref/csem.py (cross-checked against gcc on 6000 points at build time), the engine; every path is repeated with NO instrumentation (model values printed into the C text, unmodified c_to_ir). Float division of symbolic integers is modelled exactly (CPython's correctly rounded int/int followed by int()). Literals in shift counts <= 79, right factors of compound/64-bit products <= 65535. One known finding remains (no modular reduction of constant values: char g = 100+100; ends in struct.error). Outside: literal spelling, bit-field widths, designators, float and address constants, sizeof.",
     technique=TECH)
 CLAIMED["C26"] = dict(
     level="model_checking", design="§4 C26",
     text="The #if / #elif half of the property: the real preprocessor (lexer, parse_expression, expression evaluation, conditional-inclusion state machine) processes directive templates whose integer literals carry SYMBOLIC values (unsuffixed 0..2**63-1, u-suffixed 0..2**64-1); expression shapes: depth 1 exhaustive over 18 binary operators, unary - ~ ! +, ?: with signed/unsigned leaves, observed through the branch taken and through comparisons against further symbolic literals; deeper trees sampled by VERIF_SEED. Per path z3 proves that the branch ppci keeps is the one C11 6.10.1 prescribes (intmax_t/uintmax_t arithmetic with unsigned contagion, ref/csem.py) and that no exception other than a diagnostic escapes.",
-    note="PARTIAL CLAIM: macro expansion, stringification (#), token pasting (##), rescanning and hide sets are token-sequence rewriting with no value dimension - not encodable as solver obligations (the oracle would be gcc -E on concrete texts, i.e. enumeration of concrete runs); they stay outside and a change there is not detected by this check. Also outside: defined(), identifiers and character constants in #if, #ifdef/#ifndef. Known findings of the pinned tree are listed with structural regions.",
+    note="PARTIAL CLAIM: macro expansion, stringification (#), token pasting (##), rescanning and hide sets are token-sequence rewriting with no value dimension - not encodable as solver obligations (the oracle would be gcc -E on concrete texts, i.e. enumeration of concrete runs); they stay outside and a change there (seeded change C26/B) is not detected by this check. Also outside: defined(), identifiers and character constants in #if, #ifdef/#ifndef. One known finding remains (no unsigned arithmetic: #if -1 < 0u is taken as true).",
     technique=TECH)
 CLAIMED["C28"] = dict(
     level="model_checking", design="§4 C28",
     text="The value dimension of the property for the C front end: over the C27 (constant expressions in initialisers, case labels, enumerators, array sizes) and C26 (#if expressions) template families with every integer literal symbolic over its full type range, any path of the real c_to_ir / preprocessor that ends in an exception other than ppci's CompilerError (struct.error, KeyError, ZeroDivisionError, AssertionError, OverflowError, UnboundLocalError ...) is a violation, with the literal values as the model.",
-    note="PARTIAL CLAIM: the structural quantifier ('every syntactically valid input') is not encodable; only the stated template families are examined, in the dimension of their integer literal values. C3 and textual-IR front ends are outside. Known findings (internal errors of the pinned tree for particular literal values) are listed grouped by root cause.",
+    note="PARTIAL CLAIM: the structural quantifier ('every syntactically valid input') is not encodable; only the stated template families are examined, in the dimension of their integer literal values, with no definedness premise. C3 and textual-IR front ends are outside. One known finding remains (struct.error for out-of-range constant values, same root cause as the C27 one).",
     technique=TECH)
 
 CLAIMED["C17"] = dict(
